@@ -25,6 +25,7 @@ import (
 	"math/rand"
 	"os"
 	"os/exec"
+	"os/signal"
 	"path/filepath"
 	"strings"
 	"syscall"
@@ -162,23 +163,46 @@ func childFaultA(b run.Batch, r *ev.Result) {
 	h.saveState(aux)
 	os.WriteFile(filepath.Join(aux, "prefault-archive.bin"), h.ReadFile(statsFile), 0644)
 	real, aside := filepath.Join(h.Dir, statsFile), filepath.Join(h.Dir, statsAside)
-	if err := os.Rename(real, aside); err != nil {
-		r.Inconc("cannot install the disk fault: " + err.Error())
-		return
-	}
-	if err := os.Mkdir(real, 0755); err != nil {
-		os.Rename(aside, real)
-		r.Inconc("cannot install the disk fault: " + err.Error())
-		return
+	partial := b.P("mode") == "partial"
+	var oldLimit syscall.Rlimit
+	what := "a directory in its place"
+	if partial {
+		// "disk full" in the middle of the append: the kernel accepts only the first k bytes
+		// of the record (file size limit = current size + k, SIGXFSZ ignored; process wide,
+		// every other file of this process is far smaller)
+		k := 1 + h.rng.Intn(30000)
+		signal.Ignore(syscall.SIGXFSZ)
+		syscall.Getrlimit(syscall.RLIMIT_FSIZE, &oldLimit)
+		lim := oldLimit
+		lim.Cur = uint64(len(h.archB) + k)
+		if err := syscall.Setrlimit(syscall.RLIMIT_FSIZE, &lim); err != nil {
+			r.Inconc("cannot install the disk fault: " + err.Error())
+			return
+		}
+		what = fmt.Sprintf("only %d more bytes can be written", k)
+	} else {
+		if err := os.Rename(real, aside); err != nil {
+			r.Inconc("cannot install the disk fault: " + err.Error())
+			return
+		}
+		if err := os.Mkdir(real, 0755); err != nil {
+			os.Rename(aside, real)
+			r.Inconc("cannot install the disk fault: " + err.Error())
+			return
+		}
 	}
 	os.WriteFile(filepath.Join(aux, markFault), nil, 0644)
 	h.setClock(h.off + 3201)
 	h.saveState(aux)
-	h.op("rotation-loop-iteration with allDeviceStats.dat unwritable (a directory in its place), clock=%d now-offset=3201", drv.Clock())
+	h.op("rotation-loop-iteration with allDeviceStats.dat unwritable (%s), clock=%d now-offset=3201", what, drv.Clock())
 	got := drv.StepRotation() // the unchanged server dies in here
 	// ---- the server survived the failed write
-	os.Remove(real)
-	os.Rename(aside, real)
+	if partial {
+		syscall.Setrlimit(syscall.RLIMIT_FSIZE, &oldLimit)
+	} else {
+		os.Remove(real)
+		os.Rename(aside, real)
+	}
 	os.WriteFile(filepath.Join(aux, markCleared), nil, 0644)
 	r.Count("fault.survived", 1)
 	r.Note("%s: server survived an unwritable allDeviceStats.dat during rotation (loop iteration reported %d completed rotations)", h.tag, got)
@@ -306,7 +330,7 @@ type gcOut struct {
 func spawn(b run.Batch, kind, name, srv, aux string) gcOut {
 	dir := filepath.Join(b.Dir, name)
 	os.MkdirAll(dir, 0755)
-	nb := run.Batch{Index: b.Index, Seed: b.Seed, Tier: b.Tier, Kind: kind, N: 1, Dir: dir, Params: map[string]string{"srv": srv, "aux": aux}}
+	nb := run.Batch{Index: b.Index, Seed: b.Seed, Tier: b.Tier, Kind: kind, N: 1, Dir: dir, Params: map[string]string{"srv": srv, "aux": aux, "mode": b.P("mode")}}
 	raw, _ := json.Marshal(nb)
 	bf := filepath.Join(dir, "batch.json")
 	os.WriteFile(bf, raw, 0644)
@@ -384,6 +408,7 @@ func childDiskFault(b run.Batch, r *ev.Result) {
 	aux := filepath.Join(b.Dir, "aux")
 	os.MkdirAll(aux, 0755)
 	r.Count("fault.scenarios", 1)
+	r.Count("fault.scenarios."+b.P("mode"), 1)
 	replay := func(o gcOut) interface{} {
 		st := o.stderr
 		if len(st) > 3000 {
